@@ -201,7 +201,42 @@ Definition C16_bisim_step := (ResetBisim.rb_step_strong, ResetBisim.rb_step_sim,
 Definition C16_bisim_example := (ResetBisim.rb_example_sim, ResetBisim.rb_example_hist, ResetBisim.rb_example_outputs).
 Definition C16_stats_not_preserved_refuted := ResetBisim.rb_stats_refuted.
 
-Definition C16_all := (C16_after_reset_every_core_history_as_on_a_new_world, C16_reset_world_similar_to_new_world, C16_bisim_step, C16_bisim_example, C16_stats_not_preserved_refuted, C16_reset_succeeds_histories_with_observers, C16_reset_yields_a_fresh_world, C16_new_world_is_fresh, C16_every_history_from_a_fresh_world_keeps_the_invariant, C16_reset_in_every_state_of_a_history_with_resets, C16_invariant_after_every_history_with_resets, C16_reset_succeeds_histories_with_queries, C16_reset_rejected_when_locked, C16_reset_succeeds_relation_histories, C16_reset_conditions_AB_are_invariants, C16_archetypes_always_have_their_table,
+(** ** The bisimulation widened (ResetBisim2): Has / GetRelation / IDs compared, side conditions in the Reset world only,
+       filters, registration and complete queries *)
+From Ark Require Proofs.ResetBisim2 Proofs.QueryExactR.
+
+Theorem C16_after_reset_every_core_history_as_on_a_new_world_all_results :
+  forall debug c s n k os1 os2,
+  Inv2R s n k -> is_locked s = false -> cfg_ok2 c -> w_reg s = sc_kinds c ->
+  let s' := state_of (step_op debug OReset s) in
+  ResetBisim2.rb2_hist debug s' (init_world c) os1 os2 ->
+  ResetBisim.Sim (fst (ResetBisim2.rb2_run debug s' os1)) (fst (ResetBisim2.rb2_run debug (init_world c) os2)) /\
+  snd (ResetBisim2.rb2_run debug s' os1) = snd (ResetBisim2.rb2_run debug (init_world c) os2).
+Proof. exact ResetBisim2.rb2_C16_core. Qed.
+
+Theorem C16_after_reset_histories_with_filters_and_queries_as_on_a_new_world :
+  forall debug c s n k os1 os2,
+  QueryExactR.Inv2RF s n k -> is_locked s = false -> cfg_ok2 c -> w_reg s = sc_kinds c ->
+  let s' := state_of (step_op debug OReset s) in
+  let kf := length (w_filters s') in
+  ResetBisim2.rb2w_hist debug kf s' (init_world c) os1 os2 ->
+  ResetBisim2.Sim2 kf (fst (ResetBisim2.rb2_run debug s' os1)) (fst (ResetBisim2.rb2_run debug (init_world c) os2)) /\
+  ResetBisim2.rb2w_outs debug kf s' (init_world c) os1 os2.
+Proof. exact ResetBisim2.rb2_C16_wide. Qed.
+
+Theorem C16_reset_world_similar_to_new_world_with_filters :
+  forall debug c s n k, QueryExactR.Inv2RF s n k -> is_locked s = false -> cfg_ok2 c -> w_reg s = sc_kinds c ->
+  exists s', step_op debug OReset s = Ok [] s' /\ w_issued s' = w_issued s /\
+             ResetBisim2.Sim2 (length (w_filters s')) s' (init_world c).
+Proof. exact ResetBisim2.rb2_reset_sim2. Qed.
+
+Definition C16_bisim2_step := (ResetBisim2.rb2_step_strong, ResetBisim2.rb2_args_transfer, ResetBisim2.rb2_step_sim, ResetBisim2.rb2_hist_sim,
+  ResetBisim2.rb2_comps_eq, ResetBisim2.rb2_matches_eq, ResetBisim2.rb2_query_open_perm, ResetBisim2.rb2_query_count_eq,
+  ResetBisim2.rb2_s_OQueryAll, ResetBisim2.rb2_s_OQueryOpen, ResetBisim2.rb2_s_OFilterNew, ResetBisim2.rb2_wide_step, ResetBisim2.rb2w_hist_sim).
+Definition C16_bisim2_example := (ResetBisim2.rb2_example_core_hist, ResetBisim2.rb2_example_core_outputs, ResetBisim2.rb2_example_sim2,
+  ResetBisim2.rb2_example_hist, ResetBisim2.rb2_example_outputs, ResetBisim2.rb2_malformed_sample).
+
+Definition C16_all := (C16_after_reset_every_core_history_as_on_a_new_world_all_results, C16_after_reset_histories_with_filters_and_queries_as_on_a_new_world, C16_reset_world_similar_to_new_world_with_filters, C16_bisim2_step, C16_bisim2_example, C16_after_reset_every_core_history_as_on_a_new_world, C16_reset_world_similar_to_new_world, C16_bisim_step, C16_bisim_example, C16_stats_not_preserved_refuted, C16_reset_succeeds_histories_with_observers, C16_reset_yields_a_fresh_world, C16_new_world_is_fresh, C16_every_history_from_a_fresh_world_keeps_the_invariant, C16_reset_in_every_state_of_a_history_with_resets, C16_invariant_after_every_history_with_resets, C16_reset_succeeds_histories_with_queries, C16_reset_rejected_when_locked, C16_reset_succeeds_relation_histories, C16_reset_conditions_AB_are_invariants, C16_archetypes_always_have_their_table,
   C16_reset_relation_worlds, C16_relation_example, C16_reset_empty, C16_reset_locked_rejected, C16_reset_needs_every_archetype_to_have_a_table,
   C16_reset_clears_observers).
 Print Assumptions C16_all.
